@@ -173,6 +173,22 @@ func run(prop string, h *history, r *res.Result) (v *verdict) {
 			if m.boundary(p.seq) {
 				continue // would make the model's newest ambiguous
 			}
+			if prop == "C05" {
+				// the statement defines the callback's effect for a number that a check would still admit; a callback whose
+				// number has meanwhile been accepted through another callback or has fallen behind the window is dropped
+				// uninvoked ("a check whose callback is never invoked has no effect")
+				if !m.expectOK(p.seq) {
+					r.Count("deferred_dropped_uninvoked", 1)
+					continue
+				}
+				latest := p.acc()
+				r.Count("accepts", 1)
+				r.Count("accepts_deferred", 1)
+				if exp := m.accept(p.seq); latest != exp {
+					return &verdict{kind(h) + ":latest-flag-deferred", fmt.Sprintf("before step %d: the callback of Check(%d), invoked after later checks, returned %v expected %v (newest now %d)", i, p.seq, latest, exp, m.newest), i}
+				}
+				continue
+			}
 			p.acc()
 			r.Count("accepts", 1)
 			r.Count("accepts_deferred", 1)
@@ -227,7 +243,7 @@ func run(prop string, h *history, r *res.Result) (v *verdict) {
 		if prop == "C04" && st.Seq > h.Max {
 			continue
 		}
-		if prop == "C04" && st.Defer > 0 {
+		if st.Defer > 0 {
 			k := len(pending)
 			for k > 0 && pending[k-1].due > i+st.Defer {
 				k--
@@ -303,7 +319,7 @@ func genHistory(rng *rand.Rand, c05 bool) *history {
 		n = 20 + rng.Intn(60)
 	}
 	pAcc := []float64{1, 1, 0.7, 0.2}[rng.Intn(4)]
-	deferring := !c05 && rng.Intn(3) == 0 // C04: some accept callbacks are invoked only after later checks and accepts
+	deferring := rng.Intn(3) == 0 // some accept callbacks are invoked only after later checks and accepts
 	// generator-side walk around its own idea of "newest" (simply: last number it asked to accept)
 	var cur uint64
 	switch rng.Intn(6) {
